@@ -340,7 +340,7 @@ func NewCase(g *Gen, id int, forceValidate *bool) *Case {
 		c.In = &in
 		if n.Kind == KStruct && in.Kind == "map" && ((n.Exported && g.R.P(80)) || g.R.P(3)) {
 			// the record handed over as a Go struct value (falsy fields are values, not absent)
-			if vis, mk, ok := StructInput(in); ok {
+			if vis, mk, ok := StructInput(in, g.R.Fork(0x51a7).Intn(5)); ok { // (variants 1-3: embedded structs, 0 and 4: flat)
 				c.In = &vis
 				structData = mk
 				c.Shape += ":structinput"
